@@ -2,12 +2,17 @@ import vlib
 
 class P(vlib.Prop):
     id = "C17"
+    watch = ("pkg/apk/fs/memfs.go", "pkg/tarfs/fs.go", "pkg/apk/fs/rwosfs.go")
     rule = ("one stage: a corpus of hand-picked operation sequences (replays of the two repaired panics, one scenario per known corner, "
-            "symlink chains of 39/40/41 links, 39/40/41 sequential absolute links, lexical '..' targets, hard links, handles that outlive "
-            "their name, read/write/seek patterns around EOF), then random sequences of 5..40 operations over 6 names and 3 directory levels "
+            "symlink chains of 39/40/41 links, 39/40/41 sequential absolute links, lexical '..' targets, the witnesses of the syntactic class "
+            "(links through links, link budget per lookup, tarfs MkdirAll('.')), six scenarios of what dirFS decides itself (overlay/host drift, "
+            "Create('.'), climbing and rooted Link names, link(2) on a symlink, Stat mixing, un-normalised non-climbing names), hard links, handles "
+            "that outlive their name, read/write/seek patterns around EOF), then random sequences of 5..40 operations over 6 names and 3 directory levels "
             "(relative / absolute / looping / '..' link targets; a quarter with un-normalised paths; a quarter 'tame' = safe on a host directory) "
             "run through the public FullFS interface of apkfs.NewMemFS(), tarfs.New() and, for the tame ones, apkfs.DirFS(tmpdir). "
-            "Every step's return value and error class is recorded. A case is one sequence on one backend; distinct = distinct case terms; "
+            "Every step's return value and error class is recorded; in Coq every step is compared with the model of its backend (memFS / tarfs model; "
+            "for DirFS the overlay+host model of rwosfs.go, on every step, inside the envelope or not) and with the reference step. "
+            "A case is one sequence on one backend; distinct = distinct case terms; "
             "a case is trivial only if it has no operations.")
     stages = (
         dict(name="sequences", cmd="c17", args=lambda t, s: []),
@@ -17,16 +22,36 @@ class P(vlib.Prop):
         "the tar-entry side channel of pkg/tarfs (WriteHeader, tar-backed reads, hardlinks map) is outside the operation alphabet",
         "one goroutine: the per-directory mutexes are not modelled",
         "the modification time of a node that was never Chtimes'd, link counts and node names are not observed",
-        "the directory-backed filesystem is validated against the reference by the correspondence only; the host kernel is not modelled",
+        "the directory-backed filesystem: case-sensitive host; the host side of its model is the reference filesystem (plus four recorded Linux/Go choices: "
+        "zero-length reads, link(2) order and no-follow, EEXIST at '.', rmdir(base)); host permission checks and umask are not modelled (the harness runs as root, observed modes come from the overlay)",
     )
     level_text = ("The reference filesystem (Spec/FsSpec.v) satisfies the laws of the property for every state and operation; the executable model of "
                   "memfs.go and tarfs/fs.go takes exactly the reference's step on every state and operation inside the stated envelope E, hence on every "
-                  "operation sequence that stays inside it; every corner outside E is refuted with a concrete witness. The model is tied to the code by per-step "
-                  "differential comparison of every return value and error class, and the reference step is evaluated next to every observed step.")
+                  "operation sequence that stays inside it; every corner outside E is refuted with a concrete witness. Every state the code can reach (any "
+                  "sequence, corners included) is well-formed, so read-after-write and metadata-last-set hold there without side conditions. The semantic "
+                  "link-agreement clauses of E follow from a syntactic class: link targets relative, of ordinary names (then getNode's nesting limit IS the "
+                  "reference's total budget, for every limit) plus a weight certificate for the paths through openFile/MkdirAll; the class is closed under the "
+                  "code's steps. The model of the directory-backed filesystem (overlay memFS + host) takes the reference's step on synchronised states for "
+                  "normalised relative names inside the overlay's envelope, and drifts apart outside (witness). The models are tied to the code by per-step "
+                  "differential comparison of every return value and error class on all three filesystems, and the reference step is evaluated next to every observed step.")
     level_note = ("trusted: Coq kernel, goextract, Go harness/printer; modelled not verified: the Go text of memfs.go / tarfs/fs.go (hand-written model, "
-                  "differentially tested), Go maps, filepath.Clean/Dir/Base/Join (transcribed); rwosfs.go only through the correspondence")
+                  "differentially tested), Go maps, filepath.Clean/Dir/Base/Join (transcribed); rwosfs.go (hand-written model Model/DirFS.v, differentially tested on a real temp directory; "
+                  "its host side is the reference filesystem, not the kernel)")
     design_ref = "DESIGN.md 7 C17, Appendix A.2"
     modelled_not_verified = ("memFS/tarfs methods and memFile are modelled by hand (Model/MemFS.v); maxLinks and the two comparisons against it are regenerated "
-                             "from the source; dirFS (rwosfs.go), SubFS (sub.go) and the host kernel are exercised by the correspondence only")
+                             "from the source; dirFS (rwosfs.go) is modelled by hand for a case-sensitive host (Model/DirFS.v); its case-insensitive mode, Open/sanitizePath, "
+                             "SubFS (sub.go) and the host kernel itself are not modelled")
+
+    def post_replay(self, rp):
+        """cut the failing sequence of a violation replay down (harness: c17 -shrink); best effort"""
+        import os, subprocess
+        try:
+            out = subprocess.run([os.path.join(vlib.BUILD, "bin", "c17"), "-shrink", rp, "-coq", vlib.COQ],
+                                 capture_output=True, text=True, timeout=600)
+            for ln in out.stdout.splitlines():
+                if ln.startswith("SHRUNK"):
+                    print(ln)
+        except Exception as e:  # never turn a verdict into a crash
+            print("shrink skipped: %s" % e)
 
 PROP = P()
